@@ -33,7 +33,10 @@ Same explicit-stack/cache loop as `exact_cardinality`, modelled like `Count.card
 recursion (`cardGoF`, with a linear-use twin `cardGoFFast` and a proved `@[csimp]` equation); the panics
 (index out of range, `u16` underflow of `low_var - node_var - 1`, divergence) are those of
 `Count.cardOk`. `cardF64O` is the outcome, `cardF64` the value on normal return, `cardF64Bits` the
-predicted `f64::to_bits()`.
+predicted `f64::to_bits()`. The last lines of the function are `finalF` (zero entry ↦ `0.0`, else the product
+with `2.0.powi(root variable)`, `NaN ↦ INFINITY`); `finalUnguarded`/`cardF64_unguarded` record the code
+before commit 316b6bb, whose unguarded product returned `+inf` for unsatisfiable non-canonical diagrams
+with root variable ≥ 1024.
 
 Core only (no Std/Mathlib), total, executable.
 -/
@@ -210,18 +213,33 @@ def cardGoFFast (A : Arr) : Nat → Nat → CacheF → CacheF
 /-- the cache when the loop ends -/
 def cardCacheF (A : Arr) : CacheF := cardGoF A (cardFuel A) (root A) (initCacheF A)
 
-/-- `Bdd::cardinality` with its panics explicit: `is_false ↦ 0.0`; otherwise the root entry times
-    `2.0.powi(var of the last node)` — this last product is NOT guarded against a zero entry — and
-    `NaN ↦ INFINITY` -/
-def cardF64O (A : Arr) : Outcome F64 :=
+/-- the end of `cardinality` (after commit 316b6bb): `let last = cache.last; if last == 0.0 { return 0.0 }`,
+    then `r = last * 2.0.powi(var of the last node)` and `NaN ↦ INFINITY` -/
+def finalF (x : F64) (v : Nat) : F64 :=
+  if x.isZero then F64.zero
+  else
+    let r := F64.mulPow2 x v
+    if r.isNan then F64.inf else r
+
+/-- the end of `cardinality` BEFORE commit 316b6bb (kept for the record of the defect): the product was not
+    guarded against a zero entry, so `0.0 * inf = NaN ↦ INFINITY` -/
+def finalUnguarded (x : F64) (v : Nat) : F64 :=
+  let r := F64.mulPow2 x v
+  if r.isNan then F64.inf else r
+
+/-- `Bdd::cardinality` with its panics explicit: `is_false ↦ 0.0`; otherwise the root entry, `0.0` if that
+    is `0.0`, else times `2.0.powi(var of the last node)` with `NaN ↦ INFINITY`. `fin` selects the end of
+    the function (`finalF`: the code as it is; `finalUnguarded`: the code before 316b6bb). -/
+def cardF64With (fin : F64 → Nat → F64) (A : Arr) : Outcome F64 :=
   if A.size = 0 then .panic "empty node vector"
   else if A.size = 1 then .ok F64.zero
   else if !cardOk A then .panic "index out of bounds / u16 overflow / divergence in cardinality"
   else match (cardCacheF A).getD (root A) none with
-    | some x =>
-      let r := F64.mulPow2 x (varAt A (root A))
-      .ok (if r.isNan then F64.inf else r)
+    | some x => .ok (fin x (varAt A (root A)))
     | none => .panic "unwrap on None"
+
+/-- `Bdd::cardinality` (current code) -/
+def cardF64O (A : Arr) : Outcome F64 := cardF64With finalF A
 
 end Count
 
@@ -229,6 +247,10 @@ open Count in
 /-- `Bdd::cardinality` on normal return (`nan` stands for a panic; never the case for `WFo` arrays:
     `Props.C09.cardinality_f64_total`) -/
 def cardF64 (A : Arr) : F64 := match cardF64O A with | .ok x => x | _ => F64.nan
+
+open Count in
+/-- `Bdd::cardinality` as it was before commit 316b6bb (unguarded final product), for the record -/
+def cardF64_unguarded (A : Arr) : F64 := match cardF64With finalUnguarded A with | .ok x => x | _ => F64.nan
 
 /-- predicted `cardinality().to_bits()` -/
 def cardF64Bits (A : Arr) : Nat := (cardF64 A).toBits
